@@ -185,6 +185,7 @@ class Interp:
         self.extra_bases: dict = {}  # class name of a sample Node -> names of its (foreign) base classes, for isinstance
         self.overrides: dict = {}  # name -> _PyCall / value: stubs for callees outside the interpreted modules
         self.obj_classes: dict[str, str] = {}  # class name -> module name, for sample objects of non-LNodes classes
+        self._eq_depth = 0
         self.ctx: list = []  # module context of the function being interpreted (name resolution follows its imports)
         self.modconsts: dict = {}  # module-level literal containers, one object per interpreter
         self.prec: dict[str, int] = {}  # PRECEDENCE table, when a rule needs the numbers
@@ -875,6 +876,8 @@ class Interp:
                         "bytes": bytes}[e.id]
             if e.id in ("True", "False", "None"):
                 return {"True": True, "False": False, "None": None}[e.id]
+            if e.id == "NotImplemented":
+                return NotImplemented
             if e.id in _EXC_NAMES:
                 return _ExcCls(e.id)
             if e.id == "suppress":
@@ -952,6 +955,9 @@ class Interp:
                             return const_value(st.value)
                         except ValueError:
                             raise AnalysisError(f"absint: module constant {base.mod.name}.{e.attr} is not a literal")
+                sub = f"{base.mod.name}.{e.attr}"
+                if sub in self.repo.modules:
+                    return _ModRef(self.repo.modules[sub])  # a submodule of the package
                 raise AnalysisError(f"absint: {base.mod.name} has no member {e.attr}")
             if isinstance(base, Rat) and e.attr == "_ufl_is_literal_":
                 # a symbolic scalar stands for a UFL literal exactly when it has no indeterminate but the imaginary unit
@@ -1165,6 +1171,26 @@ class Interp:
         raise AnalysisError("absint: unsupported comparison")
 
     def equal(self, a, b):
+        # a class of the repository that defines __eq__ decides its own equality (Python's protocol: a.__eq__(b), then the reflected
+        # b.__eq__(a) when the first returns NotImplemented, then identity)
+        if isinstance(a, Node) or isinstance(b, Node):
+            if a is b:
+                return True
+            tried = False
+            for x, y in ((a, b), (b, a)):
+                if isinstance(x, Node) and self._eq_depth < 40:
+                    m = self.find_method(x.cls, "__eq__") if (x.cls in self.classes or x.cls in self.obj_classes) else None
+                    if m is not None:
+                        tried = True
+                        self._eq_depth += 1
+                        try:
+                            r = self.call_f(m, [x, y])
+                        finally:
+                            self._eq_depth -= 1
+                        if r is not NotImplemented:
+                            return self.truth(r)
+            if tried:
+                return False  # every __eq__ declined: Python falls back to identity, and the two are different objects
         if isinstance(a, Node) and isinstance(b, Node):
             return repr(a) == repr(b)
         if isinstance(a, Node) or isinstance(b, Node):
